@@ -226,6 +226,22 @@ def generate(tier):
         ps.append(Probe(f"variance/{vname}/grow", prog(f"fn f<'a, 'b: 'a>(x: {a}) -> {b} {{ x }}", ""), "reject", group="variance"))
         ps.append(Probe(f"variance/{vname}/shrink_ref", prog(f"fn f<'r, 'a, 'b: 'a>(x: &'r {b}) -> &'r {a} {{ x }}", ""), "reject", group="variance"))
         ps.append(Probe(f"variance/{vname}/grow_ref", prog(f"fn f<'r, 'a, 'b: 'a>(x: &'r {a}) -> &'r {b} {{ x }}", ""), "reject", group="variance"))
+    # ---- variance in the PAYLOAD type of types that are written to: a builder consumes values of its payload type and the
+    # allocation's vtable is fixed when the builder is created, so the payload lifetime must neither shrink nor grow (D7)
+    payload = {
+        "GcBuilder": "GcBuilder<'gc, &'{l} u8>", "GcSliceBuilder": "gc_arena::GcSliceBuilder<'gc, &'{l} u8>",
+        "GcSliceWithHeaderBuilder_header": "gc_arena::GcSliceWithHeaderBuilder<'gc, &'{l} u8, u8>", "GcSliceWithHeaderBuilder_element": "gc_arena::GcSliceWithHeaderBuilder<'gc, u8, &'{l} u8>",
+        "GcBuilder_nested": "GcBuilder<'gc, Option<Vec<&'{l} u8>>>", "GcLock": "Gc<'gc, Lock<&'{l} u8>>", "GcRefLock": "Gc<'gc, RefLock<&'{l} u8>>",
+    }
+    for vname, ty in payload.items():
+        a, b = ty.format(l="a"), ty.format(l="b")
+        ps.append(Probe(f"payload_variance/{vname}/twin", prog(f"fn id<'gc, 'a>(x: {a}) -> {a} {{ x }}", ""), "accept", group="payload_variance"))
+        ps.append(Probe(f"payload_variance/{vname}/shrink", prog(f"fn f<'gc, 'a, 'b: 'a>(x: {b}) -> {a} {{ x }}", ""), "reject", group="payload_variance"))
+        ps.append(Probe(f"payload_variance/{vname}/grow", prog(f"fn f<'gc, 'a, 'b: 'a>(x: {a}) -> {b} {{ x }}", ""), "reject", group="payload_variance"))
+    d7 = ("let mut arena = Arena::<Rootable![Gc<'_, Lock<Option<Gc<'_, &'_ Lock<u32>>>>>]>::new(|mc| Gc::new(mc, Lock::new(None)));\n"
+          "arena.mutate(|mc, root| {{ let victim: Gc<Lock<u32>> = Gc::new(mc, Lock::new(7)); let b: GcBuilder<'_, &'static Lock<u32>> = GcBuilder::new(); {COERCE} let holder = b.write(mc, {VALUE}); root.set(mc, Some(holder)); }});\narena.finish_cycle();")
+    ps.append(Probe("payload_variance/exploit/builder_shrunk_then_written", prog("", d7.format(COERCE="let b: GcBuilder<'_, &Lock<u32>> = b;", VALUE="victim.as_ref()")), "reject", group="payload_variance"))
+    ps.append(Probe("payload_variance/exploit/twin", prog("", d7.format(COERCE="", VALUE="&*Box::leak(Box::new(Lock::new(1u32)))").replace("let victim: Gc<Lock<u32>> = Gc::new(mc, Lock::new(7)); ", "").replace("Gc<'_, &'_ Lock<u32>>", "Gc<'_, &'static Lock<u32>>")), "accept", group="payload_variance"))
     # ---- auto traits
     ps.append(Probe("auto/twin", prog("fn is_send<T: ?Sized + Send>() {}\nfn is_sync<T: ?Sized + Sync>() {}", "is_send::<u32>(); is_sync::<u32>();"), "accept", group="auto"))
     for aname, ty in AUTO_TYPES.items():
@@ -277,6 +293,6 @@ def generate(tier):
     ps.append(Probe("implied-static/static_ref_gc/collecting_tuple_is_rejected", coll2, "reject", group="implied-static"))
     return {
         "probes": ps,
-        "rule": "grammar: branded thing {Gc, fresh Gc, GcWeak, &'gc T, &Mutation, &Finalization, DynamicRootSet, &Write, &Cell from unlock, &Root, Ref, RefMut, nested container} x escape route {return, return inside a closure / boxed closure / async block / iterator / Option<Box>, outer variable, outer Vec, outer RefCell, outer Rc<RefCell>, thread_local, static OnceLock, T: 'static bound, Box<dyn Any>, scoped thread by move / by share, channel} x entry point {new, try_new, mutate, mutate_root, map_root, try_map_root, finalize, rootless_mutate}; 13-15 cross-arena uses under nested mutate and nested finalize, root swap, foreign builder completion; 8 re-entrant collection calls from mutate and finalize; shrink/grow variance by value and behind & for 18 pointer/context/builder types; Send and Sync for 18 types incl. arenas with plain-data roots; root-type shapes implying 'gc: 'static x 4 entry points x 2 routes. Every negative has a positive twin; non-trivial = negative probes",
+        "rule": "grammar: branded thing {Gc, fresh Gc, GcWeak, &'gc T, &Mutation, &Finalization, DynamicRootSet, &Write, &Cell from unlock, &Root, Ref, RefMut, nested container} x escape route {return, return inside a closure / boxed closure / async block / iterator / Option<Box>, outer variable, outer Vec, outer RefCell, outer Rc<RefCell>, thread_local, static OnceLock, T: 'static bound, Box<dyn Any>, scoped thread by move / by share, channel} x entry point {new, try_new, mutate, mutate_root, map_root, try_map_root, finalize, rootless_mutate}; 13-15 cross-arena uses under nested mutate and nested finalize, root swap, foreign builder completion; 8 re-entrant collection calls from mutate and finalize; shrink/grow variance by value and behind & for 18 pointer/context/builder types; shrink/grow of the PAYLOAD lifetime of 7 written-to types (builders, Gc<Lock>, Gc<RefLock>) and the builder-covariance exploit; Send and Sync for 18 types incl. arenas with plain-data roots; root-type shapes implying 'gc: 'static x 4 entry points x 2 routes. Every negative has a positive twin; non-trivial = negative probes",
         "assumptions": ["pinned rustc 1.95 decides acceptance", "exhaustive over the stated grammar, not over all safe programs (the universally quantified reading of C12 is not established)"],
     }
